@@ -18,6 +18,7 @@ namespace GV.PointCodec
 open GV GV.Alg GV.PointCodecGo
 set_option linter.unusedVariables false
 set_option linter.unusedSectionVars false
+set_option linter.unusedSimpArgs false
 
 /-! ## the generic Go text -/
 
@@ -391,8 +392,20 @@ theorem byte3_unc (b : UInt8) : b &&& 224 = 0 → b &&& ~~~(224 : UInt8) = b := 
   revert b; apply byte_forall; decide +kernel
 
 theorem byte3_cases (b : UInt8) :
-    ∃ f, f < 8 ∧ b &&& 224 = UInt8.ofNat (f * 32) ∧ b.toNat / 32 = f := by
+    (b &&& 224 = 0 ∧ b.toNat / 32 = 0) ∨ (b &&& 224 = 32 ∧ b.toNat / 32 = 1) ∨
+    (b &&& 224 = 64 ∧ b.toNat / 32 = 2) ∨ (b &&& 224 = 96 ∧ b.toNat / 32 = 3) ∨
+    (b &&& 224 = 128 ∧ b.toNat / 32 = 4) ∨ (b &&& 224 = 160 ∧ b.toNat / 32 = 5) ∨
+    (b &&& 224 = 192 ∧ b.toNat / 32 = 6) ∨ (b &&& 224 = 224 ∧ b.toNat / 32 = 7) := by
   revert b; apply byte_forall; decide +kernel
+
+theorem goIsMaskInvalid_0 : goIsMaskInvalid 0 = false := by decide +kernel
+theorem goIsMaskInvalid_32 : goIsMaskInvalid 32 = true := by decide +kernel
+theorem goIsMaskInvalid_64 : goIsMaskInvalid 64 = false := by decide +kernel
+theorem goIsMaskInvalid_96 : goIsMaskInvalid 96 = true := by decide +kernel
+theorem goIsMaskInvalid_128 : goIsMaskInvalid 128 = false := by decide +kernel
+theorem goIsMaskInvalid_160 : goIsMaskInvalid 160 = false := by decide +kernel
+theorem goIsMaskInvalid_192 : goIsMaskInvalid 192 = false := by decide +kernel
+theorem goIsMaskInvalid_224 : goIsMaskInvalid 224 = true := by decide +kernel
 
 theorem byte3_low (b : UInt8) : (b &&& ~~~(224 : UInt8)).toNat = b.toNat % 32 := by
   revert b; apply byte_forall; decide +kernel
@@ -582,5 +595,109 @@ theorem goSetBytes2_refines (P : Prims α) (C : Codec α) (g : α → α) (R : R
       | some y0 =>
         cases hs1 : C.goInSub x y0 <;> cases hs2 : C.goInSub x (C.neg y0) <;> cases hl : C.lex y0 <;> cases sub <;>
           simp [Codec.absR, Codec.errClass, hs1, hs2, hl]
+
+/-! ## the three-bit family -/
+
+theorem uncInf_zero (x b0 : UInt8) (tl : List UInt8) (fb : Nat) (hfb : 1 ≤ fb) :
+    beToNat (x :: tl.take (2 * fb - 1)) = 0 ↔
+      (beToNat (x :: tl.take (fb - 1)) = 0 ∧ beToNat (((b0 :: tl).drop fb).take fb) = 0) := by
+  obtain ⟨m, rfl⟩ : ∃ m, fb = m + 1 := ⟨fb - 1, by omega⟩
+  have h : 2 * (m + 1) - 1 = m + (m + 1) := by omega
+  simp only [List.drop_succ_cons, h, List.take_add, Nat.add_sub_cancel, beToNat_eq_zero, List.mem_cons, List.mem_append]
+  constructor
+  · intro hh
+    exact ⟨fun y hy => hh y (by rcases hy with hy | hy; exact Or.inl hy; exact Or.inr (Or.inl hy)),
+      fun y hy => hh y (Or.inr (Or.inr hy))⟩
+  · rintro ⟨h1, h2⟩ y (hy | hy | hy)
+    · exact h1 y (Or.inl hy)
+    · exact h1 y (Or.inr hy)
+    · exact h2 y hy
+
+theorem goSetBytes3_refines (P : Prims α) (C : Codec α) (g : α → α) (R : Rel P C g) (hL : C.L = .three)
+    (pX pY : α) (buf : List UInt8) (sub : Bool) :
+    C.absR (goSetBytes3 C.fb g P pX pY buf sub) = some (C.goDecode sub buf) := by
+  have hc := R.c1
+  have hfb := R.fb_pos
+  by_cases hlen : buf.length < C.fb
+  · simp [goSetBytes3, Codec.goDecode, Codec.parseFrame, Codec.nbC, hc, hlen, Codec.absR, Codec.errClass]
+  · obtain ⟨b0, tl, rfl⟩ : ∃ b0 tl, buf = b0 :: tl := by
+      cases buf with
+      | nil => simp at hlen; omega
+      | cons b t => exact ⟨b, t, rfl⟩
+    have hk : C.L.k ≤ 8 := by rw [hL]; decide
+    have hk2 : 8 - C.L.k = 5 := by rw [hL]; rfl
+    have hpf := parseFrame1 C hc hfb hk b0 tl hlen
+    rw [hk2, show (2 : Nat) ^ 5 = 32 by norm_num] at hpf
+    have hlt : (tl.take (C.fb - 1)).length = C.fb - 1 := by simp at hlen ⊢; omega
+    have hx : b0.toNat % 32 * 256 ^ (C.fb - 1) + beToNat (tl.take (C.fb - 1))
+        = beToNat ((b0 &&& ~~~(224 : UInt8)) :: tl.take (C.fb - 1)) := by
+      rw [beToNat_cons, byte3_low, hlt]
+    rw [hx] at hpf
+    unfold Codec.goDecode
+    rw [hpf]
+    have h0 : 0 < tl.length + 1 := by omega
+    have h1 : C.fb ≤ tl.length + 1 := by simpa using hlen
+    have h2 : ¬ tl.length + 1 < C.fb := by omega
+    have hX : ∀ x : UInt8, P.setBytesCanonical (x :: tl.take (C.fb - 1)) =
+        if beToNat (x :: tl.take (C.fb - 1)) < C.p then some (C.ofComps [beToNat (x :: tl.take (C.fb - 1))]) else none :=
+      fun x => R.sbc _ (by simp at hlen ⊢; omega)
+    have hXs : ∀ x : UInt8, goSlice (x :: tl.take (C.fb - 1)) 0 C.fb = x :: tl.take (C.fb - 1) := by
+      intro x; rw [goSlice_head _ _ _ hfb, List.take_take, Nat.min_self]
+    rcases byte3_cases b0 with ⟨hm, hd⟩ | ⟨hm, hd⟩ | ⟨hm, hd⟩ | ⟨hm, hd⟩ | ⟨hm, hd⟩ | ⟨hm, hd⟩ | ⟨hm, hd⟩ | ⟨hm, hd⟩
+    · -- 000 uncompressed
+      rw [byte3_unc b0 hm]
+      by_cases hlen2 : tl.length + 1 < 2 * C.fb
+      · simp [goSetBytes3, goIsMaskInvalid_0, goIsMaskInvalid_32, goIsMaskInvalid_64, goIsMaskInvalid_96, goIsMaskInvalid_128, goIsMaskInvalid_160, goIsMaskInvalid_192, goIsMaskInvalid_224, hL, hd, hm, Layout.classify, h0, h1, h2, hlen2, Codec.absR, Codec.errClass]
+      · have h3 : C.fb * 2 ≤ tl.length + 1 := by omega
+        have hY := R.sbc (((b0 :: tl).drop C.fb).take C.fb) (by simp; omega)
+        simp only [goSetBytes3, goIsMaskInvalid_0, goIsMaskInvalid_32, goIsMaskInvalid_64, goIsMaskInvalid_96, goIsMaskInvalid_128, goIsMaskInvalid_160, goIsMaskInvalid_192, goIsMaskInvalid_224, List.getD_cons_zero, hm, goSlice_second, goSlice_head _ _ _ hfb, hX]
+        generalize ((b0 :: tl).drop C.fb).take C.fb = Y at hY ⊢
+        simp only [hY]
+        simp [hL, hd, Layout.classify, h0, h1, h2, h3, hlen2, Codec.phase1, allLt]
+        generalize beToNat (b0 :: List.take (C.fb - 1) tl) = vx
+        generalize beToNat Y = vy
+        by_cases hvx : vx < C.p <;> by_cases hvy : vy < C.p <;>
+          simp [hvx, hvy, Codec.absR, Codec.errClass, Codec.phase2Go, R.sub]
+        generalize C.ofComps [vx] = x
+        generalize C.ofComps [vy] = y
+        cases hs : C.goInSub x y <;> cases sub <;> simp [Codec.absR, Codec.errClass, hs]
+    · -- 001 invalid
+      simp [goSetBytes3, goIsMaskInvalid_0, goIsMaskInvalid_32, goIsMaskInvalid_64, goIsMaskInvalid_96, goIsMaskInvalid_128, goIsMaskInvalid_160, goIsMaskInvalid_192, goIsMaskInvalid_224, hL, hd, hm, Layout.classify, h0, h1, h2, Codec.absR, Codec.errClass]
+    · -- 010 uncompressed infinity
+      by_cases hlen2 : tl.length + 1 < 2 * C.fb
+      · simp [goSetBytes3, goIsMaskInvalid_0, goIsMaskInvalid_32, goIsMaskInvalid_64, goIsMaskInvalid_96, goIsMaskInvalid_128, goIsMaskInvalid_160, goIsMaskInvalid_192, goIsMaskInvalid_224, hL, hd, hm, Layout.classify, h0, h1, h2, hlen2, Codec.absR, Codec.errClass]
+      · have h3 : 2 * C.fb ≤ tl.length + 1 := by omega
+        have hz := uncInf_zero (b0 &&& ~~~(224 : UInt8)) b0 tl C.fb hfb
+        simp [goSetBytes3, goIsMaskInvalid_0, goIsMaskInvalid_32, goIsMaskInvalid_64, goIsMaskInvalid_96, goIsMaskInvalid_128, goIsMaskInvalid_160, goIsMaskInvalid_192, goIsMaskInvalid_224, hL, hd, hm, Layout.classify, h0, h1, h2, h3, hlen2, Codec.phase1, allZero,
+          goSlice_tail, goIsZeroed_eq]
+        rw [if_congr hz rfl rfl]
+        split <;> simp [Codec.absR, Codec.errClass, Codec.phase2Go, Codec.mkPt, R.zero]
+    · simp [goSetBytes3, goIsMaskInvalid_0, goIsMaskInvalid_32, goIsMaskInvalid_64, goIsMaskInvalid_96, goIsMaskInvalid_128, goIsMaskInvalid_160, goIsMaskInvalid_192, goIsMaskInvalid_224, hL, hd, hm, Layout.classify, h0, h1, h2, Codec.absR, Codec.errClass]
+    · simp only [goSetBytes3, goIsMaskInvalid_128, goIsMaskInvalid_160, hm, bufX_copy _ _ _ hfb h1, List.set_cons_zero,
+        List.getD_cons_zero, hXs, hX]
+      simp [hL, hd, Layout.classify, h0, h1, h2, Codec.phase1, allLt]
+      generalize beToNat ((b0 &&& ~~~224) :: List.take (C.fb - 1) tl) = vx
+      by_cases hvx : vx < C.p <;> simp [hvx, Codec.absR, Codec.errClass, Codec.phase2Go, R.sub, R.sqrt, R.rhs, R.lex, R.neg]
+      generalize C.ofComps [vx] = x
+      cases C.sqrt (C.rhs x) with
+      | none => simp [Codec.absR, Codec.errClass]
+      | some y0 =>
+        cases hs1 : C.goInSub x y0 <;> cases hs2 : C.goInSub x (C.neg y0) <;> cases hl : C.lex y0 <;> cases sub <;>
+          simp [Codec.absR, Codec.errClass, hs1, hs2, hl]
+    · simp only [goSetBytes3, goIsMaskInvalid_128, goIsMaskInvalid_160, hm, bufX_copy _ _ _ hfb h1, List.set_cons_zero,
+        List.getD_cons_zero, hXs, hX]
+      simp [hL, hd, Layout.classify, h0, h1, h2, Codec.phase1, allLt]
+      generalize beToNat ((b0 &&& ~~~224) :: List.take (C.fb - 1) tl) = vx
+      by_cases hvx : vx < C.p <;> simp [hvx, Codec.absR, Codec.errClass, Codec.phase2Go, R.sub, R.sqrt, R.rhs, R.lex, R.neg]
+      generalize C.ofComps [vx] = x
+      cases C.sqrt (C.rhs x) with
+      | none => simp [Codec.absR, Codec.errClass]
+      | some y0 =>
+        cases hs1 : C.goInSub x y0 <;> cases hs2 : C.goInSub x (C.neg y0) <;> cases hl : C.lex y0 <;> cases sub <;>
+          simp [Codec.absR, Codec.errClass, hs1, hs2, hl]
+    · -- 110 compressed infinity
+      simp [goSetBytes3, goIsMaskInvalid_0, goIsMaskInvalid_32, goIsMaskInvalid_64, goIsMaskInvalid_96, goIsMaskInvalid_128, goIsMaskInvalid_160, goIsMaskInvalid_192, goIsMaskInvalid_224, hL, hd, hm, Layout.classify, h0, h1, h2, Codec.phase1, allZero, goSlice_tail, goIsZeroed_eq]
+      split <;> simp [Codec.absR, Codec.errClass, Codec.phase2Go, Codec.mkPt, R.zero]
+    · simp [goSetBytes3, goIsMaskInvalid_0, goIsMaskInvalid_32, goIsMaskInvalid_64, goIsMaskInvalid_96, goIsMaskInvalid_128, goIsMaskInvalid_160, goIsMaskInvalid_192, goIsMaskInvalid_224, hL, hd, hm, Layout.classify, h0, h1, h2, Codec.absR, Codec.errClass]
 
 end GV.PointCodec
